@@ -9,6 +9,26 @@ NOTE_COMMON = ("Trusted: Lean 4.33 kernel; axioms ⊆ {propext, Classical.choice
                "implementation by differential execution (sampled), not by proof. ")
 
 CLAIMED = {
+ "C09": dict(
+   text=("Structure flags regenerated from the AST of the eight writer classes on every run (write() rebinds its argument to a deepcopy before any use other "
+         "than pure getters / helper that does; no method stores into foreign objects; open_span is reset at entry) feed Lean theorems: every writer copies "
+         "first or is read-only (writers_copy_or_pure) hence returns its argument unchanged whatever the body does, also when it raises (write_preserves_input); "
+         "the document text of the DFXP / legacy / SAMI span machine does not depend on the flag left by earlier writes (write_resets_state) and, by induction over "
+         "any history of writes on one writer object, the n-th output equals a fresh writer's (output_history_independent). Execution: histories over all eight "
+         "writers and option combinations with deep before/after snapshots, reused vs fresh writers, the model's open_span flag vs the real attribute, and "
+         "byte comparison with pristine sub-processes under three hash seeds."),
+   ref="§3 C09", technique="translator-derived structure flags + Lean 4 proof over the writer-state model + history execution with snapshots and sub-processes",
+   note=NOTE_COMMON + "Hash-seed independence and byte identity are established by execution, not by theorem; the AST rules that decide 'copies first' / 'read-only' are part of the trusted translator; deepcopy is assumed to copy."),
+ "C10": dict(
+   text=("Flags regenerated from the source (Caption/CaptionSet constructors have no mutable-literal default; SCCReader.read re-assigns every state field of "
+         "__init__ before processing lines; SAMIParser.langs is an ordered container) feed Lean theorems: reading with a reused SCCReader equals reading with a "
+         "fresh one for every prior state and document (read_independent_of_history, over the full reader model), the style dictionaries of two results are "
+         "distinct objects so an edit to one never shows in the other (fresh_results_isolated, allocation model), SAMI languages come in first-appearance "
+         "order independently of any iteration-order permutation (languages_in_first_appearance_order). Execution: histories of reads/edits/writes over six "
+         "formats with reader reuse; every read compared with pristine sub-processes under three hash seeds; all other results re-snapshotted after every edit."),
+   ref="§3 C10", technique="translator-derived structure flags + Lean 4 proof over allocation / reader-state models + history execution with sub-processes",
+   note=NOTE_COMMON + "CPython object identity is modelled by allocation ids; hash seeds by execution; the other readers keep no state between calls (checked by execution only)."),
+
  "C17": dict(
    text=("Lean theorems by kernel evaluation over the regenerated writer tables: every code the writer can emit for a character (basic, special, extended, the "
          "fallback) and every fixed control word has odd parity in each byte (writer_bytes_odd_parity, fixed_words_odd_parity); for rows 1-15 the writer's "
